@@ -24,6 +24,7 @@ import common as c
 import c01_gen as g
 import c01_run as r
 import evalstream as es
+import textstream as ts
 
 PID = "C01"
 MANIFEST = {
@@ -548,6 +549,7 @@ def main(argv):
         tp = time.time()
         streams["ALL"] = es.run_all_stream(h, c.Rng(seed + 0x0A11), quick, res, cli=cli_r, tag="c01all")
         c.log("ALL correspondence %.1fs" % (time.time() - tp))
+        streams["TEXT-EVAL"] = ts.run_text_stream(h, c.Rng(seed + 0x7E87), quick, res, cli=cli_r, tag="c01text")
     except c.BrokenTie as e:
         res.tie_broken(e.what, e.detail)
 
